@@ -197,6 +197,29 @@ CHECKS = {
             "are judged by TLC.",
             "Trusted: TLC; integer data only (accuracy of chunked float summation is not claimed).",
             "DESIGN.md section 5 C18"),
+    "C03": (MC, "TLA+ spec of forward and inverse maps only (RTransform.tla), all derivatives derived by the symbolic D; TLC decides "
+                "inverse/derivative identities, monotonicity and end points exactly on a rational lattice with checked 32-bit arithmetic; "
+                "spec-derived trees replayed into all eight methods of every class",
+            "For the 12 transform classes the specification writes only F and G (plus domain, codomain, admissibility); TLC checks "
+            "G(F(x)) = x, the inverse-function identities up to third order between D^n(G) and D^n(F), monotonic direction and reference end "
+            "points exactly on the rational classes and exponent instances (1.6e3 states quick, 3.8e4 thorough; products that would overflow "
+            "are reported undecided, never wrong) and emits all derived trees.  The harness re-checks every identity with unbounded integers / "
+            "50 digits and compares transform, inverse, deriv, deriv2, deriv3 and the three inverse derivatives, domain and codomain of every "
+            "class and of InverseRTransform at lattice and seeded float parameters (non-integer k, m), with trim on/off, array / NumPy-scalar / "
+            "Python-float input (1.3e5 observations quick, 4.1e6 thorough).",
+            "Trusted: TLC, expr_eval/mpmath; float comparisons are harness-judged with a running-error bound per tree (largest error/tolerance "
+            "ratio on sound code 3.3e-4).",
+            "DESIGN.md section 5 C03, Appendix H"),
+    "C04": (MC, "TLC computes the exact transformed grids of rational rules under rational transforms (Transform1D in RTransform.tla) and "
+                "decides non-negativity, containment, ordered image domain, exactness transport and round trip; exact grids and trees "
+                "replayed into transform_1d_grid for 19 rule classes x all transforms",
+            "TLC evaluates Transform1D (nodes F(x_i), weights w_i |D(F)(x_i)|, ordered image of the domain with the trim rule, inferred "
+            "scale b) exactly for trapezoid / midpoint / Simpson / UniformInteger under the rational transforms and checks the consequences of "
+            "the statement incl. the decreasing map and exactness transport through LinearFinite.  The harness reproduces TLC's grids through "
+            "the library, replays 19 library rule classes x all transform instances x seeded float parameters (points, weights, domain, sum "
+            "rule, positivity, InverseRTransform round trip) and discharges 16 848 Gauss-Legendre exactness obligations on [a, b].",
+            "Trusted: TLC, expr_eval; non-rational rules use the library's own nodes and weights (their correctness is C01).",
+            "DESIGN.md section 5 C04"),
 }
 
 NOT_YET = {}
